@@ -171,6 +171,60 @@ def run_vdriver(cases, tag, keep=None, detail=0, outdir=None, extra=None, case_t
     return tpath
 
 
+def run_vdriver_raw(sub, in_objs, tag, cwd=None, env=None, clean_env=False, extra=None, timeout=3000):
+    """run a driver subcommand (`gen` or `sched`) in a separate process, optionally from another working
+    directory and with a scrubbed / altered environment; returns the list of trace events"""
+    build_harness()
+    d = os.path.join(WORK, "runs", tag)
+    shutil.rmtree(d, ignore_errors=True)
+    os.makedirs(d, exist_ok=True)
+    ip = os.path.join(d, "in.ndjson")
+    with open(ip, "w") as f:
+        for o in in_objs:
+            f.write(json.dumps(o) + "\n")
+    tp = os.path.join(d, "trace.ndjson")
+    cmd = [VDRIVER, sub, ip, tp] + (extra or [])
+    e = {"PATH": os.environ.get("PATH", ""), "HOME": os.environ.get("HOME", "/root")} if clean_env else dict(os.environ)
+    if env:
+        e.update(env)
+    p = subprocess.run(cmd, cwd=cwd, env=e, timeout=timeout, stdout=subprocess.PIPE, stderr=subprocess.STDOUT, text=True, errors="replace")
+    if p.returncode != 0:
+        log(p.stdout[-3000:])
+        raise ToolError("vdriver %s failed (rc=%d)" % (sub, p.returncode))
+    return [json.loads(l) for l in open(tp) if l.strip()]
+
+
+def concretise(shaders):
+    """abstract shader records -> WGSL texts, through the driver's concretiser"""
+    build_harness()
+    d = os.path.join(WORK, "runs", "concretise_%d" % os.getpid())
+    os.makedirs(d, exist_ok=True)
+    cp = os.path.join(d, "c.ndjson")
+    with open(cp, "w") as f:
+        for i, S in enumerate(shaders):
+            f.write(json.dumps({"id": str(i), "S": S}) + "\n")
+    rc, out = run([VDRIVER, "concretise", cp, "--json"], timeout=600)
+    if rc != 0:
+        raise ToolError("concretise failed: " + out[-2000:])
+    res = [json.loads(l)["wgsl"] for l in out.splitlines() if l.startswith("{")]
+    shutil.rmtree(d, ignore_errors=True)
+    return res
+
+
+REPO_SHADERS = ["example/src/shader.wgsl", "example/src/compute_shader.wgsl", "wgsl_to_wgpu/src/data/fragment_simple.wgsl",
+                "wgsl_to_wgpu/src/data/bindgroup/compute.wgsl", "wgsl_to_wgpu/src/data/bindgroup/fragment.wgsl",
+                "wgsl_to_wgpu/src/data/bindgroup/vertex.wgsl"]
+
+
+def repo_shaders():
+    out = []
+    for p in REPO_SHADERS:
+        fp = os.path.join("/repo", p)
+        if os.path.exists(fp):
+            out.append(("repo-" + os.path.basename(p), open(fp).read()))
+    return out
+
+
 class TraceResult:
     def __init__(self):
         self.verdicts = []
@@ -185,13 +239,19 @@ def validate_trace(trace_path, enforce, module="Trace_Gen.tla", cfg="Trace_Gen.c
     """Feed a recorded trace to TLC (chunked). Returns accumulated verdicts."""
     res = TraceResult()
     lines = open(trace_path).read().splitlines()
-    # chunk at case boundaries
+    # chunk at case boundaries, and only where the source changes (the memo of History checks is per source)
     chunks, curc = [], []
+    last_sha = None
     for ln in lines:
-        if ln.startswith('{"ev":"case"') or '"ev":"case"' in ln[:200] and ln.lstrip().startswith("{") and json.loads(ln).get("ev") == "case":
-            if len(curc) >= chunk_lines:
+        if '"ev":"case"' in ln[:400] or '"ev": "case"' in ln[:400]:
+            try:
+                sha = json.loads(ln).get("src_sha")
+            except Exception:
+                sha = None
+            if len(curc) >= chunk_lines and sha != last_sha:
                 chunks.append(curc)
                 curc = []
+            last_sha = sha
         curc.append(ln)
     if curc:
         chunks.append(curc)
@@ -309,7 +369,7 @@ def handle_verdicts(rep, tr, cases_by_id, family):
         if msg.startswith("ORACLE"):
             rep.oracle_disagreements.append(v)
             continue
-        if msg.startswith("PROJ"):
+        if msg.startswith("PROJ") or msg.startswith("HOOK"):
             rep.proj_failures.append(v)
             continue
         case = cases_by_id.get(v.get("id"))
